@@ -13,6 +13,9 @@ coq/Slots.v, Erase.v, Alias.v, Throw.v, EmplaceGrow.v and ThrowMove.v model the 
     driver records every memmove of the amc headers as a ledger event (the vacated source slots become `R`); a relocated object is
     printed with a trailing `!` (it does not live where it was constructed): the marker is checked here against the values (an object
     carries it iff it sits in another slot than the one it was built in) and removed before the comparison with the model;
+  * the families of coq/Transfer.v (swap_deep, move_n, reloc*: swap / move assignment / relocation of a whole content) run between TWO
+    raw buffers (composite state `buffer 1/buffer 2/e`), for vf::El<0>, vf::El<1> and - relocation only - vf::El<2> (the copy variant
+    RelocateByCopy with every throw index, amc::uninitialized_relocate_n with throwing moves); erase_at* on one buffer;
   * both sides are rendered to the same text (`post=R,L10,M,... | threw= | newsize= | errs=`) and compared line by line.
 
 `run(tier) -> dict`;  `python3 -m lib.slotcorr [quick|thorough]` prints a summary and exits 1 on any difference.
@@ -29,10 +32,11 @@ from . import common as C
 from . import coqbuild
 
 WORK = os.path.join(C.CACHE, "slotcorr")
-VOS = ["Slots.vo", "Erase.vo", "Alias.vo", "Throw.vo", "EmplaceGrow.vo", "ThrowMove.vo", "SlotsTR.vo"]
+VOS = ["Slots.vo", "Erase.vo", "Alias.vo", "Throw.vo", "EmplaceGrow.vo", "ThrowMove.vo", "SlotsTR.vo", "Transfer.vo"]
 RANGE_VALUE = 100       # slotdrv.cpp: kRangeValue (insert_range_tr: the source range holds 100, 101, ...)
 NEW_VALUE = 99          # slotdrv.cpp: kNewValue
 FIRST_VALUE = 10        # slotdrv.cpp: kFirstValue
+SECOND_VALUE = 20       # slotdrv.cpp: kSecondValue (two-buffer families: the second buffer holds 20, 21, ...)
 MAX_REPORTED = 8
 CHUNK = 300             # cases per `Eval vm_compute`
 TIERS = {"quick": (4, 3), "thorough": (6, 4)}    # (max size, max spare capacity = max count)
@@ -136,16 +140,50 @@ CASES = {
                         ["SlotsTR.shift_right_cnt", "SlotsTR.copy_after_shift", "SlotsTR.unshift_right", "SlotsTR.uninit_copy_n",
                          "SlotsTR.uninit_copy_loop", "SlotsTR.relocate_n", "SlotsTR.reloc_fwd", "SlotsTR.reloc_bwd", "SlotsTR.relocate",
                          "Throw.copy_construct", "Throw.destroy_n", "Throw.destroy", "Throw.tick"]),
+    # coq/Transfer.v: whole-content transfers between two buffers (composite state buffer 1/buffer 2/e), and erase_at
+    "swap_deep": (("n1", "cap1", "n2", "cap2"), True, "KSwapDeep false", "Transfer.swap_deep",
+                  ["Transfer.swap_ranges", "Transfer.swap1", "Transfer.relocate_any", "Transfer.relocate_nx", "EmplaceGrow.mv_construct",
+                   "EmplaceGrow.mv_assign", "EmplaceGrow.mv_uninit_n", "Throw.destroy_n", "Throw.destroy", "ThrowMove.lift"]),
+    "swap_deep_tr": (("n1", "cap1", "n2", "cap2"), True, "KSwapDeep true", "Transfer.swap_deep",
+                     ["Transfer.swap_ranges", "Transfer.swap1", "Transfer.relocate_any", "SlotsTR.relocate_n", "SlotsTR.reloc_fwd",
+                      "SlotsTR.reloc_bwd", "SlotsTR.relocate", "EmplaceGrow.mv_construct", "EmplaceGrow.mv_assign", "Throw.destroy",
+                      "ThrowMove.lift"]),
+    "move_n": (("n", "cap1", "dn", "cap2"), True, "KMoveN false", "Transfer.move_n",
+               ["EmplaceGrow.mv_forward", "EmplaceGrow.mv_assign", "EmplaceGrow.mv_uninit_n", "EmplaceGrow.mv_construct", "Throw.destroy_n",
+                "Throw.destroy", "ThrowMove.lift"]),
+    "move_n_tr": (("n", "cap1", "dn", "cap2"), True, "KMoveN true", "Transfer.move_n",
+                  ["SlotsTR.relocate_n", "SlotsTR.reloc_fwd", "SlotsTR.reloc_bwd", "SlotsTR.relocate", "Throw.destroy_n", "Throw.destroy",
+                   "ThrowMove.lift"]),
+    "reloc": (("n", "cap1", "cap2"), True, "KReloc false", "Transfer.relocate_to_new_buffer",
+              ["Transfer.uninit_relocate_n", "Transfer.uninit_move_n", "Transfer.uninit_move_loop", "Transfer.move_construct_g",
+               "EmplaceGrow.mv_construct", "Throw.destroy_n", "Throw.destroy", "ThrowMove.lift"]),
+    "reloc_tr": (("n", "cap1", "cap2"), True, "KReloc true", "Transfer.relocate_to_new_buffer",
+                 ["SlotsTR.relocate_n", "SlotsTR.reloc_fwd", "SlotsTR.reloc_bwd", "SlotsTR.relocate", "ThrowMove.lift"]),
+    "reloc_cp": (("n", "cap1", "cap2"), True, "KRelocCopy", "Transfer.relocate_by_copy",
+                 ["Transfer.uninit_copy_n", "Transfer.uninit_copy_loop", "Transfer.copy_construct_from", "Throw.destroy_n", "Throw.destroy",
+                  "Throw.tick", "ThrowMove.lift"]),
+    "reloc_mt": (("n", "cap1", "cap2"), True, "KRelocMt", "Transfer.uninit_relocate_n",
+                 ["Transfer.uninit_move_n", "Transfer.uninit_move_loop", "Transfer.move_construct_g", "ThrowMove.move_construct",
+                  "EmplaceGrow.mv_construct", "Throw.destroy_n", "Throw.destroy", "Throw.tick", "ThrowMove.lift"]),
+    "erase_at": (("size", "cap", "pos"), True, "KEraseAt false", "Transfer.erase_at",
+                 ["EmplaceGrow.mv_forward", "EmplaceGrow.mv_assign", "Throw.destroy", "ThrowMove.lift"]),
+    "erase_at_tr": (("size", "cap", "pos"), True, "KEraseAt true", "Transfer.erase_at",
+                    ["SlotsTR.relocate_n", "SlotsTR.reloc_fwd", "SlotsTR.relocate", "Throw.destroy", "ThrowMove.lift"]),
+    "erase_at_mt": (("size", "cap", "pos"), True, "KEraseAtMt", "Transfer.erase_at_mt",
+                    ["ThrowMove.move_forward", "ThrowMove.move_assign", "EmplaceGrow.mv_assign", "Throw.destroy", "Throw.tick", "ThrowMove.lift"]),
 }
 # the model computes the size the member function sets
 HAS_NEWSIZE = ("insert_cnt", "resize_grow", "emplace_n_th", "emplace_grow_th", "emplace_back_grow_th", "emplace_n_mt", "emplace_n_tr")
 # families whose state is made of segments `a/b/...` (slotdrv.cpp, SLOTDRV.md): block/argument/e  or  old block/argument/e/new block
-COMPOSITE = {"emplace_n_th": 3, "emplace_grow_th": 4, "emplace_back_grow_th": 4, "emplace_n_mt": 3, "emplace_n_tr": 3}
+COMPOSITE = {"emplace_n_th": 3, "emplace_grow_th": 4, "emplace_back_grow_th": 4, "emplace_n_mt": 3, "emplace_n_tr": 3,
+             "swap_deep": 3, "swap_deep_tr": 3, "move_n": 3, "move_n_tr": 3, "reloc": 3, "reloc_tr": 3, "reloc_cp": 3, "reloc_mt": 3}
+# composite families made of TWO buffers: buffer 1/buffer 2/e (coq/Transfer.v); the others: block/argument/e[/new block]
+TWO_BUF = ("swap_deep", "swap_deep_tr", "move_n", "move_n_tr", "reloc", "reloc_tr", "reloc_cp", "reloc_mt")
 # composite families whose block segment is `cap` slots long (the others: `size`)
 BLOCK_IS_CAP = ("emplace_n_th", "emplace_n_mt", "emplace_n_tr")
 # families on the trivially relocatable element vf::El<1>: objects are moved bitwise, the marker `!` is legal there (see relocation_marks)
 TR_FAMILIES = ("shift_right1_tr", "shift_right_cnt_tr", "unshift_right_tr", "shift_left_tr", "insert_n_tr", "emplace_n_tr", "erase_tr",
-               "insert_cnt_tr", "insert_range_tr")
+               "insert_cnt_tr", "insert_range_tr", "swap_deep_tr", "move_n_tr", "reloc_tr", "erase_at_tr")
 
 LINE = re.compile(r"^CASE (\S+) ((?:\w+=\d+ )+)k=(-|\d+) \| pre=(\S+) \| post=(\S+) \| threw=([01]) \| newsize=(-|\d+) \| "
                   r"errs=(\d+) live=(-?\d+)(?: msg=(.*))?$")
@@ -154,7 +192,7 @@ HEAD = re.compile(r"^CASE (\S+) ((?:\w+=\d+ )+)k=(-|\d+) \|")
 COQ_PRELUDE = r"""(* generated by lib/slotcorr.py: evaluates the slot models on the cases the C++ driver ran *)
 From Coq Require Import ZArith List Arith Bool.
 From Amc Require Import Slots Erase Alias Throw EmplaceGrow.
-From Amc Require ThrowMove SlotsTR.
+From Amc Require ThrowMove SlotsTR Transfer.
 Import ListNotations.
 Set Printing Depth 1000000.
 Set Printing Width 200.
@@ -248,7 +286,18 @@ Inductive case :=
 | KEmplaceNTR (size cap pos src rv : nat) (th : option nat)
 | KEraseTR (size cap first last : nat) (th : option nat)
 | KInsertCntTR (size cap pos count : nat) (th : option nat)
-| KInsertRangeTR (size cap pos count : nat) (th : option nat).
+| KInsertRangeTR (size cap pos count : nat) (th : option nat)
+| KSwapDeep (tr : bool) (n1 cap1 n2 cap2 : nat) (th : option nat)
+| KMoveN (tr : bool) (n cap1 dn cap2 : nat) (th : option nat)
+| KReloc (tr : bool) (n cap1 cap2 : nat) (th : option nat)
+| KRelocCopy (n cap1 cap2 : nat) (th : option nat)
+| KRelocMt (n cap1 cap2 : nat) (th : option nat)
+| KEraseAt (tr : bool) (size cap pos : nat) (th : option nat)
+| KEraseAtMt (size cap pos : nat) (th : option nat).
+
+(* coq/Transfer.v, layout Transfer.init2: buffer 1 = [0, cap1), t = cap1 + 1 (the temporary of std::swap), buffer 2 = [cap1 + 3, cap1 + 3 + cap2);
+   observed: buffer 1, buffer 2, t *)
+Definition idx2 (cap1 cap2 : nat) : list nat := seq 0 cap1 ++ seq (cap1 + 3) cap2 ++ [cap1 + 1].
 
 Definition run (c : case) : list Z :=
   match c with
@@ -325,6 +374,18 @@ Definition run (c : case) : list Z :=
                  else ThrowMove.lift (SlotsTR.erase_n (initT size cap) first n (size - last)) th) NOSIZE NOSIZE
   | KInsertCntTR size cap pos count th => showT cap (SlotsTR.insert_cnt_tr (initT size cap) th size pos count v) NOSIZE NOSIZE
   | KInsertRangeTR size cap pos count th => showT cap (SlotsTR.insert_range_tr (initT size cap) th size pos (rangeTR count)) NOSIZE NOSIZE
+  (* coq/Transfer.v: swap_deep, move_n and the relocation with noexcept moves have no throwing-capable event: the oracle is handed back *)
+  | KSwapDeep tr n1 cap1 n2 cap2 th =>
+      showE (idx2 cap1 cap2) (ThrowMove.lift (Transfer.swap_deep tr (Transfer.init2 n1 cap1 n2 cap2) (cap1 + 1) 0 n1 (cap1 + 3) n2) th) NOSIZE NOSIZE
+  | KMoveN tr n cap1 dn cap2 th =>
+      showE (idx2 cap1 cap2) (ThrowMove.lift (Transfer.move_n tr (Transfer.init2 n cap1 dn cap2) 0 n (cap1 + 3) dn) th) NOSIZE NOSIZE
+  | KReloc tr n cap1 cap2 th =>
+      showE (idx2 cap1 cap2) (Transfer.relocate_to_new_buffer tr (Transfer.init2 n cap1 0 cap2) th 0 n (cap1 + 3)) NOSIZE NOSIZE
+  | KRelocCopy n cap1 cap2 th => showE (idx2 cap1 cap2) (Transfer.relocate_by_copy (Transfer.init2 n cap1 0 cap2) th 0 n (cap1 + 3)) NOSIZE NOSIZE
+  | KRelocMt n cap1 cap2 th => showE (idx2 cap1 cap2) (Transfer.uninit_relocate_n true (Transfer.init2 n cap1 0 cap2) th 0 n (cap1 + 3)) NOSIZE NOSIZE
+  (* erase(position) calls erase_at (position, size - pos - 1) *)
+  | KEraseAt tr size cap pos th => showT cap (ThrowMove.lift (Transfer.erase_at tr (initT size cap) pos (size - pos - 1)) th) NOSIZE NOSIZE
+  | KEraseAtMt size cap pos th => showT cap (Transfer.erase_at_mt (initT size cap) th pos (size - pos - 1)) NOSIZE NOSIZE
   end.
 """
 ERR_NAMES = {1: "ConstructOverLive", 2: "ReadDead", 3: "AssignDead", 4: "DestroyDead", 5: "OutOfBlock"}
@@ -361,6 +422,42 @@ def unmarked(text_or_tokens):
     if isinstance(text_or_tokens, str):
         return text_or_tokens.replace("!", "")
     return [t.rstrip("!") for t in text_or_tokens]
+
+
+def two_buf_shape(c):
+    """-> (elements of buffer 1, its capacity, elements of buffer 2, its capacity) before the call"""
+    p = c.params
+    if c.name.startswith("swap_deep"):
+        return p["n1"], p["cap1"], p["n2"], p["cap2"]
+    if c.name.startswith("move_n"):
+        return p["n"], p["cap1"], p["dn"], p["cap2"]
+    return p["n"], p["cap1"], 0, p["cap2"]
+
+
+def relocation_marks2(c, text, before):
+    """The marker `!` in a state of a two-buffer `*_tr` family.  std::swap moves VALUES between objects that stay where they were built
+    (no marker); only the objects relocated by a memmove carry it: the tail of the longer range after swap_deep (now in the other
+    buffer), every element of the destination after move_n / RelocateToNewBuffer.  -> list of problems"""
+    n1, _, n2, _ = two_buf_shape(c)
+    segs = segments(text)
+    want = [set(), set()]
+    if not before:
+        if c.name == "swap_deep_tr":
+            want = [set(range(n1, n2)), set(range(n2, n1))]
+        else:
+            want = [set(), set(range(n1))]
+    out = []
+    if any(t.endswith("!") for t in segs[2]):
+        out.append("marker in the temporary segment")
+    for b in (0, 1):
+        for j, t in enumerate(segs[b]):
+            if not is_alive(t):
+                if t.endswith("!"):
+                    out.append("buffer %d slot %d: marker on a raw slot" % (b + 1, j))
+            elif (j in want[b]) != t.endswith("!"):
+                out.append("buffer %d slot %d holds %s: %s" % (b + 1, j, t, "a relocated object without the marker" if j in want[b]
+                                                               else "marked as relocated, but it was not moved by a memmove"))
+    return out
 
 
 def relocation_marks(c, tokens_text, completed):
@@ -504,16 +601,40 @@ def expected_bases(max_size, max_extra):
                     out.add(("erase", size, cap, first, last))
                     out.add(("erase_mt", size, cap, first, last))
                     out.add(("erase_tr", size, cap, first, last))
+            for pos in range(size):
+                out.add(("erase_at", size, cap, pos))
+                out.add(("erase_at_tr", size, cap, pos))
+                out.add(("erase_at_mt", size, cap, pos))
             for count in range(size, cap + 1):
                 out.add(("resize_grow", size, cap, count))
             for count in range(cap + 1):
                 out.add(("assign_grow" if size < count else "assign_shrink", size, cap, count))
+    # coq/Transfer.v: two buffers, every capacity tight and with one spare slot
+    slack = 1 if max_extra >= 1 else 0
+    for n1 in range(max_size + 1):
+        for n2 in range(max_size + 1):
+            for e1 in range(slack + 1):
+                for e2 in range(slack + 1):
+                    for name in ("swap_deep", "swap_deep_tr"):
+                        out.add((name, n1, max(n1, n2) + e1, n2, max(n1, n2) + e2))
+                    for name in ("move_n", "move_n_tr"):
+                        out.add((name, n1, n1 + e1, n2, max(n1, n2) + e2))
+    for n in range(max_size + 1):
+        for e1 in range(slack + 1):
+            for e2 in range(max_extra + 1):
+                for name in ("reloc", "reloc_tr", "reloc_cp", "reloc_mt"):
+                    out.add((name, n, n + e1, n + e2))
     return out
 
 
 def expected_pre(c):
     """-> token list (plain families) or the composite text"""
     p = c.params
+    if c.name in TWO_BUF:
+        n1, cap1, n2, cap2 = two_buf_shape(c)
+        b1 = ["L%d" % (FIRST_VALUE + i) if i < n1 else "R" for i in range(cap1)]
+        b2 = ["L%d" % (SECOND_VALUE + i) if i < n2 else "R" for i in range(cap2)]
+        return "/".join([",".join(b1) if b1 else "-", ",".join(b2) if b2 else "-", "R"])
     size = p["size"]
     cap = p.get("cap", size)
     prefix = ["L%d" % (FIRST_VALUE + i) if i < size else "R" for i in range(cap)]
@@ -566,7 +687,7 @@ def harness_checks(cases, max_size, max_extra):
         if c.name in TR_FAMILIES:
             for when, text, completed in (("before", c.pre_text if c.name in COMPOSITE else c.pre, False),
                                           ("after", c.post_text if c.name in COMPOSITE else c.post, not c.threw)):
-                for q in relocation_marks(c, text, completed):
+                for q in (relocation_marks2(c, text, when == "before") if c.name in TWO_BUF else relocation_marks(c, text, completed)):
                     anomalies.append("%s: relocation marker %s the call: %s" % (c.title(), when, q))
         elif any(s.endswith("!") for s in c.post):
             anomalies.append("%s: a non relocatable object was moved bitwise: %s" % (c.title(), ",".join(c.post)))
@@ -576,7 +697,7 @@ def harness_checks(cases, max_size, max_extra):
             if any(t.startswith("X") for t in c.post):
                 anomalies.append("%s: leak: %s" % (c.title(), c.post_text))
             segs = segments(c.post_text)
-            blocks = segs[0] + (segs[3] if len(segs) == 4 else [])
+            blocks = segs[0] + (segs[1] if c.name in TWO_BUF else segs[3] if len(segs) == 4 else [])
             shown = len([t for t in blocks if is_alive(t)]) + sum(int(t[1:] or 1) for t in segs[2] if t.startswith("X"))
             if c.live != shown:
                 anomalies.append("%s: %d live objects but %d accounted for in %s" % (c.title(), c.live, shown, c.post_text))
@@ -651,7 +772,12 @@ def slot_text(z):
 
 
 def composite_text(c, slots):
-    """the model's slots [block or old block..., argument, e, new block...] as the driver's composite text"""
+    """the model's slots [block or old block..., argument, e, new block...] as the driver's composite text
+    (two-buffer families: [buffer 1..., buffer 2..., e])"""
+    if c.name in TWO_BUF:
+        _, cap1, _, cap2 = two_buf_shape(c)
+        toks = [{-3: "O"}.get(z, slot_text(z)) for z in slots]
+        return "/".join([",".join(toks[:cap1]) if cap1 else "-", ",".join(toks[cap1:cap1 + cap2]) if cap2 else "-", toks[cap1 + cap2]])
     n = c.params["cap"] if c.name in BLOCK_IS_CAP else c.params["size"]
     toks = [{-3: "O"}.get(z, slot_text(z)) for z in slots]
     segs = [",".join(toks[:n]) if n else "-", toks[n], toks[n + 1]]
@@ -687,8 +813,12 @@ def run(tier="quick"):
                     "lvalue and as an rvalue; element type El<0> (not trivially relocatable, noexcept moves); families *_mt: shift_right (both "
                     "overloads), shift_left, insert_n, emplace_n, erase_n on El<2> (moves are throwing-capable events), every throw index; "
                     "families *_tr: the trivially relocatable overloads of shift_right (both), unshift_right, shift_left, insert_n, emplace_n, "
-                    "erase_n and the bodies of insert(pos, count, v) / insert(pos, first, last) on El<1> (bitwise relocation), every throw index"
-                    % (max_size, max_extra, max_extra)}
+                    "erase_n and the bodies of insert(pos, count, v) / insert(pos, first, last) on El<1> (bitwise relocation), every throw index; "
+                    "whole-content transfers between two buffers (coq/Transfer.v): swap_deep and move_n for every pair of lengths 0..%d, "
+                    "RelocateToNewBuffer of 0..%d elements into a raw buffer, each capacity tight and with spare slots, on El<0> and El<1>; the "
+                    "copy variant of RelocateToNewBuffer and amc::uninitialized_relocate_n on El<2>, every throw index; erase_at on El<0>, "
+                    "El<1>, El<2>"
+                    % (max_size, max_extra, max_extra, max_size, max_size)}
 
     def done():
         res["wall_time_s"] = round(time.time() - t_start, 1)
